@@ -123,7 +123,14 @@ def main(argv):
         impl_obs = []
         reqs = []
         for n, c in enumerate(cases):
-            impl_obs.append(prop.impl(c))
+            try:
+                impl_obs.append(prop.impl(c))
+            except InfraError:
+                raise
+            except Exception as e:
+                # the harness could not even observe the implementation on this case (e.g. an operation returned
+                # something that is not an array any more): a broken correspondence, reported with the case
+                impl_obs.append({"err": "other", "msg": "%s: %s" % (type(e).__name__, e), "_unobservable": traceback.format_exc()[-1500:]})
             r = prop.request(c)
             r["id"] = n
             reqs.append(r)
@@ -148,6 +155,9 @@ def main(argv):
         distinct.add(key)
         if prop.nontrivial(c):
             nontrivial.add(key)
+        if io.get("_unobservable"):
+            mismatches.append((c, io, ans, {"kind": "M", "differs": ["implementation_not_observable"], "msg": io["msg"]}))
+            continue
         for fk, fv in prop.features(c, io).items():
             dist[fk][str(fv)] += 1
         if ans is None:
@@ -159,9 +169,9 @@ def main(argv):
         try:
             mm = prop.judge(c, io, ans)
         except Exception as e:
-            print("INFRA: judge crashed on case %s: %s" % (key[:300], e))
-            traceback.print_exc()
-            return 2
+            # the comparison itself failed on what the implementation returned: broken correspondence
+            mm = {"kind": "M", "differs": ["comparison_failed"], "msg": "%s: %s" % (type(e).__name__, e),
+                  "trace": traceback.format_exc()[-1200:]}
         if len(samples) < 3 and mm is None and prop.nontrivial(c):
             samples.append({"case": c, "impl": _short(io), "lean": _short(ans)})
         if mm is not None:
